@@ -39,6 +39,7 @@ func (C06) Generate(rng *rand.Rand, tier string, runIdx uint64) simkit.Plan {
 		// catalog-heavy runs
 		w.Register, w.Deregister, w.Ext = 40, 20, 10
 	}
+	w.CaseVariants = simkit.Chance(rng, 30)
 	g := NewGen(rng, u, w)
 	n := 10 + rng.IntN(60)
 	p := &Plan{Cfg: Cfg{GCTTL: simkit.Pick(rng, []string{"15m", "30s"}), GCGran: "1s", WatchLimit: simkit.Pick(rng, []int{0, 0, 1, 8})}}
